@@ -17,7 +17,11 @@ open Slicec
 
 /-- methods whose result cannot depend on the iteration order of a hash container -/
 def orderFree : List String :=
-  ["insert", "get", "get_mut", "contains", "contains_key", "entry", "remove", "clone", "is_empty", "len", "extend", "retain"]
+  ["insert", "get", "get_mut", "contains", "contains_key", "entry", "remove", "clone", "is_empty", "len", "extend", "retain",
+   -- capacity management and whole-container operations: no element order can be observed through them
+   "reserve", "try_reserve", "shrink_to_fit", "shrink_to", "capacity", "clear",
+   -- keyed access / set predicates whose result is a function of the *set* of elements
+   "get_key_value", "remove_entry", "take", "replace", "get_or_insert_with", "is_subset", "is_superset", "is_disjoint"]
 
 /-- every method the compiler calls on a HashMap / HashSet (list regenerated from slicec/src on every run)
     is order-free: no iteration, no `keys`/`values`/`drain`/`for … in map` can leak a hash order into a result. -/
